@@ -644,6 +644,21 @@ impl StorageEngine {
             return Err(StorageError::KnowledgeGraphNotFound(kg.to_string()));
         }
 
+        // A relation holds tuples of one arity. A tuple of another arity - or any tuple when
+        // the relation is unknown - is not stored, so deleting it removes nothing; it must
+        // not reach the update log either, where a shard buffer that mixes arities could
+        // never be flushed again.
+        let tuples: Vec<Tuple> = match self.get_relation_metadata_in(kg, relation)? {
+            Some((columns, _)) => tuples
+                .into_iter()
+                .filter(|t| t.arity() == columns.len())
+                .collect(),
+            None => Vec::new(),
+        };
+        if tuples.is_empty() {
+            return Ok(0);
+        }
+
         // Generate shard name and logical time
         let shard = format!("{kg}:{relation}");
         let time = self.logical_time.fetch_add(1, Ordering::SeqCst);
@@ -1810,6 +1825,8 @@ impl StorageEngine {
 
                 // Read and consolidate updates
                 let mut updates = self.persist.read(&shard_name, info.since)?;
+                // The arity of the relation survives even when every tuple was deleted
+                let logged_arity = updates.first().map(|u| u.data.arity());
                 consolidate_to_current(&mut updates);
 
                 // Extract current tuples (positive multiplicities only)
@@ -1825,6 +1842,12 @@ impl StorageEngine {
                     metadata.add_relation(relation.to_string(), schema, tuple_count);
 
                     engine.add_tuples(relation, tuples);
+                } else if let Some(arity) = logged_arity {
+                    // Emptied before the restart: still known, with its arity and no tuples,
+                    // exactly as in the engine that emptied it (so that tuples of another
+                    // arity are still rejected and never mixed into the same shard)
+                    let schema: Vec<String> = (0..arity).map(|i| format!("col{i}")).collect();
+                    metadata.add_relation(relation.to_string(), schema, 0);
                 }
             }
         }
